@@ -298,7 +298,12 @@ def gen_scene(rng, multi, allow_fail=True):
     return dict(fitfun=fitfun, multi=bool(multi), nframes=(max(fnos) + 1 if multi else 1), feats=feats,
                 bg=rng.choice([0, 10]), order=rng.choice(ORDERS) if multi else rng.choice(["asc", "interleaved"]),
                 index=rng.choice(INDEXES) if multi else rng.choice(["range", "shuffled", "str", "dup"]),
-                oseed=rng.randrange(10 ** 6), extra_cols=rng.random() < 0.5)
+                oseed=rng.randrange(10 ** 6), extra_cols=rng.random() < 0.5,
+                # presentation of the same data: column order, image dtype.  (`signal_int`, an int64 signal
+                # column, is understood by build_scene but NOT generated: on the unchanged tree the write-back
+                # of fitted values into an integer column raises TypeError with pandas >= 3 -- reported
+                # as a finding about the unchanged tree, not silenced by a tolerance)
+                colorder=rng.random() < 0.3, signal_int=False, img_f32=rng.random() < 0.3)
 
 
 PM_CHOICES = [{"size": "var"}, {"size": "cluster"}, {"signal": "cluster"}, {"background": "const"},
@@ -1129,9 +1134,15 @@ def build_scene(ls, scene):
     if scene["extra_cols"]:
         data["name"] = ["p%02d" % (7 * i % 100) for i in range(n)]
         data["ecc"] = [0.125 * i for i in range(n)]
+    if scene.get("signal_int") and not any(f["nan"] for f in feats):
+        data["signal"] = np.array([180] * n, dtype=np.int64)
     t = pd.DataFrame(data)
     order = list(range(n))
     rnd = random.Random(scene["oseed"])
+    if scene.get("colorder"):
+        cols = list(t.columns)
+        rnd.shuffle(cols)
+        t = t[cols]
     kind = scene["order"]
     if kind == "desc":
         order.sort(key=lambda i: -feats[i]["frame"])
@@ -1157,6 +1168,8 @@ def build_scene(ls, scene):
         t.index = pd.Index([i // 2 for i in range(n)])
     elif lay == "tindex":
         t.index = pd.Index(t["frame"].values, name="frame")
+    if scene.get("img_f32"):
+        images = [im.astype(np.float32) for im in images]
     pristine = [im.copy() for im in images]
     reader = Frames(images) if scene["multi"] else images[0]
     return reader, pristine, t
@@ -1380,6 +1393,9 @@ def run_frames(ctx, inp, res):
     res.stat("frames_order_" + scene["order"])
     res.stat("frames_index_" + scene["index"])
     res.stat("frames_features", len(t))
+    for opt in ("colorder", "signal_int", "img_f32"):
+        if scene.get(opt):
+            res.stat("frames_scene_" + opt)
     res.stat("frames_nframes_%d" % len(set(fr)))
     if not grouped:
         res.stat("interleaved_frame_tables")
